@@ -21,8 +21,13 @@ RULE = (
 )
 ASSUME = ["dns.resolver.resolve / dns.asyncresolver.resolve are the library's DNS entry points (seam)"]
 BOUND = {"quick": "all 66,429 ordered lists, both flavours", "thorough": "same + full weight domain {0,1,65535} variant"}
-DOMAINS = ["domain.test", "sub.corp.example.com", "x", None, "", "CORP.TEST", "Corp.Example.Com", "xn--bcher-kva.example", "a-b_c.d0"]  # "" must behave like None (bare prefix through the search list) in both flavours
+DOMAINS = ["domain.test", "sub.corp.example.com", "x", None, "", "CORP.TEST", "Corp.Example.Com", "xn--bcher-kva.example", "a-b_c.d0", "corp.test.", "Sub.Example.Com."]  # fully qualified spellings (trailing root dot) stay absolute  # "" must behave like None (bare prefix through the search list) in both flavours
 SID = "S-1-5-21-1-2-3-1104"
+
+
+def same_qname(qn: str, expq: str) -> bool:
+    """a fully qualified domain (trailing root dot) must be asked as it was given; otherwise a trailing dot on the query is not judged here"""
+    return qn == expq if expq.endswith(".") else qn.rstrip(".") == expq
 
 
 def make_answer(qname_text: str, records: t.Sequence[t.Tuple[int, int, int, str]]):
@@ -243,7 +248,7 @@ def judge(acc, pw, domain, variant, history=None) -> None:
         expq = "_ldap._tcp.dc._msdcs" + (f".{domain}" if domain else "")
         if not domain and qn.endswith("."):
             acc.violate(f"query.absolute-name-without-domain.{flavour}", case, {"query": qn}, size=len(pw))
-        if qn.rstrip(".") != expq or qt != "SRV":
+        if not same_qname(qn, expq) or qt != "SRV":
             acc.violate(f"query.name.{flavour}", case, {"query": [qn, qt], "expected": expq}, size=len(pw))
         if not domain and not search:
             acc.violate(f"query.search.{flavour}", case, {"search": search}, size=len(pw))
@@ -439,7 +444,7 @@ def run_shard(shard, tier, seed, acc) -> None:
                     expq = "_ldap._tcp.dc._msdcs" + (f".{fdom}" if fdom else "")
                     if e is None:
                         acc.violate("fault.swallowed", case, {"queries": q})
-                    if any(x.rstrip(".") != expq for x in q):
+                    if any(not same_qname(x, expq) for x in q):
                         acc.violate("fault.other-name-queried", case, {"queries": q, "expected": expq})
                     for pw in small:
                         for dom in (None, "domain.test", fdom):
@@ -542,7 +547,7 @@ def run_shard(shard, tier, seed, acc) -> None:
                     expq = f"_ldap._tcp.dc._msdcs.{dom}"
                     if not good:
                         acc.violate("api.result", case, {})
-                    if len(rec.queries) != 1 or rec.queries[0][0].rstrip(".") != expq:
+                    if len(rec.queries) != 1 or not same_qname(rec.queries[0][0], expq):
                         acc.violate("api.query", case, {"queries": rec.queries, "expected": expq})
                     if not hub.attempts or hub.attempts[0][1] != 135 or hub.attempts[0][0] not in ok_targets or any(h != hub.attempts[0][0] for h, _ in hub.attempts):
                         acc.violate("api.connects-elsewhere", case, {"attempts": hub.attempts, "acceptable": sorted(ok_targets)})
